@@ -444,6 +444,73 @@ func runC05(c *Ctx) {
 			"the appended value is unicode.ToLower(...)", "a value reaches the word buffer through append without passing unicode.ToLower: re-casing the input changes the token")
 	}
 	c.R.RequireMin("R05.1", "runes appended to the word buffer", n, 2)
+	// ... and what html.UnescapeString puts into the word afterwards (a character reference can stand for an upper-case
+	// letter) is lower-cased before the word is interned, whenever the word is being normalised
+	nU := 0
+	for _, fn := range v2Funcs(p) {
+		var unesc []ssa.Value
+		for _, call := range core.CallsIn(fn) {
+			if core.StaticCalleeName(call.Common()) == "html.UnescapeString" {
+				if v := call.Value(); v != nil {
+					unesc = append(unesc, v)
+				}
+			}
+		}
+		if len(unesc) == 0 {
+			continue
+		}
+		uset := map[ssa.Value]bool{}
+		for _, u := range unesc {
+			uset[u] = true
+		}
+		var flag *ssa.Parameter
+		for _, prm := range fn.Params {
+			if isBool(prm.Type()) {
+				flag = prm
+			}
+		}
+		var loweredAfter func(v ssa.Value, depth int) bool
+		loweredAfter = func(v ssa.Value, depth int) bool {
+			if depth > 8 {
+				return false
+			}
+			switch x := v.(type) {
+			case *ssa.Call:
+				if core.StaticCalleeName(&x.Call) == "strings.ToLower" {
+					return dependsOnAnyThroughPhi(x.Call.Args[0], uset, 0)
+				}
+				// a rewrite applied afterwards keeps the case (ReplaceAll of lower-case constants, same-package helpers)
+				for _, a := range x.Call.Args {
+					if isString(a.Type()) && loweredAfter(a, depth+1) {
+						return true
+					}
+				}
+			case *ssa.Phi:
+				for i, e := range x.Edges {
+					pb := x.Block().Preds[i]
+					// the edge that skips `if normalize { ... }` is dead when normalising
+					if ifi, ok := pb.Instrs[len(pb.Instrs)-1].(*ssa.If); ok && flag != nil && ifi.Cond == ssa.Value(flag) && pb.Succs[1] == x.Block() {
+						continue
+					}
+					if !loweredAfter(e, depth+1) {
+						return false
+					}
+				}
+				return true
+			}
+			return false
+		}
+		for _, call := range core.CallsIn(fn) {
+			cal := call.Common().StaticCallee()
+			if cal == nil || !p.IsFn(cal, v2pkg, "(*dictionary).add") || len(call.Common().Args) < 2 {
+				continue
+			}
+			nU++
+			c.R.Check(loweredAfter(call.Common().Args[1], 0), "R05.1", core.ShortFn(fn)+": text resolved from HTML character references is lower-cased before the word is interned (normalize=true)", p.Pos(call.Pos()),
+				"strings.ToLower is applied after html.UnescapeString on every path that is live when normalising", "a character reference that stands for an upper-case letter (\"&#80;ermission\") leaves a capital in the word: Match sees an unknown word where the same text written plainly (or its normalised form) matches")
+		}
+	}
+	c.R.RequireMin("R05.1", "words interned after HTML unescaping", nU, 1)
 	// any other write into the word buffer (append of bytes) is unexpected
 	// R05.2 punctuation table
 	tab, ok := globalMapLiteral(p, v2pkg, "punctuationMappings")
